@@ -18,8 +18,9 @@
 (* agree with the trigonometric definition and are mutual inverses, the     *)
 (* law of cosines at the centre (side from radius) and at a vertex (angle   *)
 (* from radius and side), and admissibility a < (n-2) pi/n <=> sinh^2 R > 0.*)
-(* Cases: "angle" (n, a given; exact R, s), "radius" (n, tanh R rational    *)
-(* given; exact angle, s) and "generic" (n in 3..12, a = j pi/12: only the  *)
+(* Cases: "angle" (n, a given; exact R, s), "surface" (genus g: n = 4g,     *)
+(* a = pi/2g), "radius" (n, tanh R rational given; exact angle, s) and     *)
+(* "generic" (n in 3..12, a = j pi/12: only the  *)
 (* enumeration and admissibility are specified, no closed-form value).      *)
 (***************************************************************************)
 EXTENDS Rat, Naturals, FiniteSets, TLC, Json
@@ -115,13 +116,16 @@ Sinh2Of(t) == QRat(R(t[1] * t[1], t[2] * t[2] - t[1] * t[1]))
 
 AngleCases == {[kind |-> "angle", n |-> n, a |-> a, dim |-> dd] : n \in ExactNs, a \in Angles, dd \in Dims}
 RadiusCases == {[kind |-> "radius", n |-> n, t |-> t, dim |-> dd] : n \in ExactNs, t \in TanhRs, dd \in Dims}
+\* the fundamental polygon of the genus-g surface: the regular 4g-gon whose 4g interior angles add up to 2 pi
+SurfaceCases == {[kind |-> "surface", genus |-> gg, n |-> 4 * gg, a |-> <<1, 2 * gg>>, dim |-> 2] : gg \in {2, 3}}
 GenericCases == {[kind |-> "generic", n |-> n, a |-> <<j, 12>>, dim |-> dd] : n \in 3..MaxN, j \in 1..11, dd \in Dims}
 
 InDomain(c) == CASE c.kind = "angle" -> Compatible(c.n, c.a) /\ Admissible(c.n, c.a)
+                 [] c.kind = "surface" -> Compatible(c.n, c.a) /\ Admissible(c.n, c.a)
                  [] c.kind = "radius" -> TRUE
                  [] c.kind = "generic" -> Admissible(c.n, c.a)
 
-Init == kase \in {c \in AngleCases \cup RadiusCases \cup GenericCases : InDomain(c)}
+Init == kase \in {c \in AngleCases \cup RadiusCases \cup SurfaceCases \cup GenericCases : InDomain(c)}
 Next == UNCHANGED kase
 
 (***************************************************************************)
@@ -137,8 +141,10 @@ Triangle(r, n, ch2, cs, hc2) ==
     /\ QMul(r, ch2, QSub(cs, QOne)) = QMul(r, sh2, QMul(r, QAdd(cs, QOne), hc2))
     /\ QSgn(r, sh2) > 0 /\ QLess(r, QOne, cs)
 
+SurfaceCaseLaws == kase.kind = "surface" => kase.n * kase.a[1] = 2 * kase.a[2]          \* n a = 2 pi
+
 AngleCaseLaws ==
-  kase.kind = "angle" =>
+  kase.kind \in {"angle", "surface"} =>
     LET n == kase.n
         r == FieldFor(n, kase.a)
         ca == CosAng(r, kase.a)
@@ -174,7 +180,7 @@ AdmissibleIffPositive ==
 (***************************************************************************)
 QJ(a) == [x |-> a[1], y |-> a[2]]
 CaseObs ==
-  CASE kase.kind = "angle" ->
+  CASE kase.kind \in {"angle", "surface"} ->
          LET r == FieldFor(kase.n, kase.a)
              ca == CosAng(r, kase.a)
          IN [kase |-> kase, r |-> r, cosa |-> QJ(ca), coshsqR |-> QJ(CoshSqR(r, kase.n, ca)), coshside |-> QJ(CoshSide(r, kase.n, ca))]
